@@ -310,7 +310,7 @@ fn entry_points() -> Vec<(&'static str, Gen)> {
 }
 
 pub fn run(cx: &mut Ctx) {
-    let n = cx.tier.pick(24usize, 256, 1024);
+    let n = cx.tier.pick(24usize, 256, 4096);
     let only_nightly = cx.opt("nightly_forms_only").is_some();
     let eps = entry_points();
     for (ei, (name, f)) in eps.iter().enumerate() {
